@@ -147,6 +147,7 @@ func runRace(ctx context.Context, c raceCase) (*violation, error) {
 	if err != nil {
 		return nil, err
 	}
+	ref.depsFirst = c.Par != 1
 	dir, err := os.MkdirTemp("", "c09race")
 	if err != nil {
 		return nil, err
@@ -236,6 +237,7 @@ func childMain() int {
 		fmt.Println("child:", err)
 		return 9
 	}
+	ref.depsFirst = spec.Proc%2 == 1
 	thread.SetParallelism(spec.Case.Par)
 	// wait for the parent's go signal
 	_, _ = bufio.NewReader(os.Stdin).ReadByte()
